@@ -145,6 +145,7 @@ Errs == {th[t].err : t \in Threads} \ {""}
 Verdict ==
   IF nv THEN "stores-no-value-of-the-type"
   ELSE IF RoErr \in Errs THEN "expected-written-on-success"
+  ELSE IF WildErr \in Errs THEN "access-outside-the-object"
   ELSE IF Errs # {} THEN "model:" \o (CHOOSE e \in Errs : TRUE)
   ELSE IF Outcome \in LinSet /\ KeptOK THEN "ok"
   ELSE IF Case.opk \in FetchOld /\ Outcome \in LinNew /\ KeptOK THEN "returns-new-value"
